@@ -137,6 +137,12 @@ def decode (bs : Bytes) : Option Item :=
   | some (x, []) => some x
   | _ => none
 
+/-- Big-endian minimal byte representation of a natural number (empty for 0). -/
+def natToBytes (n : Nat) : Bytes :=
+  if _h : n = 0 then [] else natToBytes (n / 256) ++ [UInt8.ofNat (n % 256)]
+termination_by n
+decreasing_by omega
+
 /-! ### Writer (definite lengths; indefinite only for chunked byte strings and arrays) -/
 
 def natToBE (n : Nat) (width : Nat) : Bytes :=
